@@ -270,6 +270,13 @@ def run_c17(tier, seed):
                                 answers=[st(op="answer", n="n1", kind="raw", hex=bigrep.hex()), st(op="answer", n="n2", kind="ok", count=4)]))
         scs.append(c17_scenario("c17-okreply", [req("get", ["A"]), wit],
                                 answers=[st(op="answer", n="n1", kind="raw", hex=okrep.hex()), st(op="answer", n="n2", kind="ok", count=4)]))
+        # a request the proxy answers itself (PING, AUTH, a refused one) with bytes that are not RESP right behind it in the
+        # same write: the reply (or the error) comes first, then the close
+        bad = {"k": "bad", "slots": [], "args": [], "dups": []}
+        for nm, first in [("ping", [req("ping")]), ("unsup", [req("cmd", [], ["FLUSHALL"])]), ("arity", [req("cmd", ["A"], ["GET"])]),
+                          ("auth", [req("cmd", [], ["AUTH", "x"])]), ("big", [req("cmd", ["A"], ["SET", "@0", "#400"])]),
+                          ("two", [req("ping"), req("cmd", [], ["KEYS", "*"])]), ("fwd", [req("get", ["A"]), req("ping")])]:
+            scs.append(c17_scenario("c17-then-invalid-%s" % nm, first + [bad]))
         cfg = {"masters": 3, "mode": "step", "maxLen": LIMIT}
         r = common.replay_and_validate(cfg, scs, wd, "c17", spec="CmdTrace", cfgfile="CmdTrace.cfg", consts={"Limit": str(LIMIT)})
         # AUTH is answered by the proxy itself: what it says must not depend on the slot table.  Slots 15000..16383 are
@@ -570,6 +577,16 @@ def arg_shapes(quick):
     return shapes
 
 
+def _c02_churn_map(viols):
+    """A single-key request answered with something its node did not give it, in the token-judged random walks."""
+    for v in viols:
+        sc = v.get("scenario") or {"steps": []}
+        sent = [rq for stp in sc["steps"] for x in stp["stim"] if x["op"] == "send" and x["c"] == v.get("c") for rq in x["reqs"]]
+        single = 0 < v.get("i", 0) <= len(sent) and sent[v["i"] - 1]["k"] in ("get", "set")
+        if v["prop"] in ("C03", "C01", "C02") and v["code"] in ("foreign-data", "wrong-position", "reply-altered", "reply-without-answer") and single:
+            v["prop"], v["code"] = "C02", "reply-bytes-altered:" + v["code"]
+
+
 def run_c02(tier, seed):
     wd = common.scratch()
     try:
@@ -653,16 +670,27 @@ def run_c02(tier, seed):
         cfgs.append(({"masters": 3, "replicas": 1, "password": "pw", "mode": "step", "rawLog": True}, sub, "c02pw"))
         # back-pressure on a backend connection and a partially draining slow reader (8 KB socket buffers)
         cfgs.append((dict(BP_CFG), backpressure_scenarios(q), "c02bp"))
+        # clients that come and go while replies are in flight (random walks of the event-loop checks, judged by token):
+        # what a single-key request is answered with is the reply its node gave to it, never one given to a request of a
+        # client that has left
+        import gen_core
+        churn = gen_core.gen_many(seed, "churn", 150 if q else 3000)
+        cfgs.append((gen_core.cfg_for("churn"), churn, "c02churn"))
         viol, other = [], {}
         tot = {"states": 0, "transitions": 0, "traces": 0, "events": 0, "crashes": 0, "unrealised": 0, "harness_errors": []}
         for cfg, ss, tag in cfgs:
-            r = common.replay_and_validate(cfg, ss, wd, tag, spec="RawTrace", cfgfile="RawTrace.cfg", par=8)
+            if tag == "c02churn":
+                r = common.replay_and_validate(cfg, ss, wd, tag, par=8)
+                _c02_churn_map(r["viol"])
+            else:
+                r = common.replay_and_validate(cfg, ss, wd, tag, spec="RawTrace", cfgfile="RawTrace.cfg", par=8)
             for kk in ("states", "transitions", "traces", "events", "unrealised"):
                 tot[kk] += r[kk]
             tot["crashes"] += r["crashes"] + r["dead"]
             tot["harness_errors"] += r["harness_errors"]
             for v in r["viol"]:
-                if v["prop"] == "DEAD" or (v["prop"] == "C02" and v["code"] in ("request-bytes-altered", "reply-bytes-altered", "request-delivered-twice", "request-never-reached-a-backend")):
+                if v["prop"] == "DEAD" or (v["prop"] == "C02" and (v["code"] in ("request-bytes-altered", "reply-bytes-altered", "request-delivered-twice", "request-never-reached-a-backend")
+                                                                   or v["code"].startswith("reply-bytes-altered:"))):
                     viol.append(v)
                 elif v["code"] == "never-answered" and v["prop"] in ("C09", "C15", "C16"):   # (at quiescence; "by the end of the
                     # iteration" means nothing for a reply of several read buffers)
@@ -697,6 +725,10 @@ def replay(pid, payload):
             r = common.replay_and_validate(payload["cfg"], [payload["scenario"]], wd, "replay", par=1)
             off = {x["c"] for st in payload["scenario"]["steps"] for x in st["stim"] if x["op"] == "send" and any(q["k"] == "bad" for q in x["reqs"])}
             return [v for v in r["viol"] if v["prop"] in (pid, "DEAD") or (v.get("c") and v["c"] not in off)]
+        if pid == "C02" and not payload["cfg"].get("rawLog"):
+            r = common.replay_and_validate(payload["cfg"], [payload["scenario"]], wd, "replay", par=1)
+            _c02_churn_map(r["viol"])
+            return [v for v in r["viol"] if v["prop"] in (pid, "DEAD")]
         r = common.replay_and_validate(payload["cfg"], [payload["scenario"]], wd, "replay", par=1, spec="RawTrace", cfgfile="RawTrace.cfg")
         return [v for v in r["viol"] if v["prop"] in (pid, "DEAD") or v.get("c") == "c2"]
     finally:
